@@ -551,6 +551,10 @@ func init() {
 		goTableRule(c, "C13/GO-TABLE")
 		chanOpsRule(c, "C13/CHAN-OPS")
 		onErrorCancelRule(c, "C13/ONERROR-CANCEL")
+		lockOrderRule(c, "C13/LOCK-ORDER", 3)
+		// Client.Close runs destroyWriter when the state says Play / Record: a function that
+		// leaves that state without a writer makes Close panic instead of completing
+		writerStateRule(c, "C13/WRITER-STATE")
 		replyPairingRule(c, "C13/REPLY-PAIRING", 10, []string{"Server.runInner", "ServerSession.runInner", "ServerConn.runInner", "Client.runInner"}, map[string]string{
 			"Server).runInner/chHandleHTTPChannel": "no reply when the connection is already gone: the requester is that connection's reader goroutine, which has exited before the connection is removed from s.conns (ServerConn.run waits for the reader before closeConn), and the GET side waits with a timer and its context",
 		})
